@@ -246,7 +246,7 @@ var properties = map[string]*Property{
 		Assumptions: []string{
 			"event model: inotify order is preserved (FIFO), the last event of a file's final state is never dropped, delays are bounded",
 			"while faults flow nothing is demanded about communication failures: both 'kept' and 'unloaded' stay possible; convergence is judged after faults stopped and every source was observed again",
-			"the kubernetes runs use wall-clock time (bounded liveness 8 s); their traces contain scripted lines and the processor log at quiescent points only",
+			"the kubernetes runs use wall-clock time (bounded liveness 25 s, at most two connection faults per run because client-go backs off exponentially); their traces contain scripted lines and the processor log at quiescent points only",
 			"processor rejections (a rule set the repository refuses) are injected in http/file/blob runs, not in kubernetes runs (the informer has no retry)",
 		},
 		MustBePositive: []string{"provider-http/processor-calls", "provider-fs/processor-calls", "provider-blob/processor-calls", "provider-k8s/processor-calls", "provider-k8s/fault:watch-gap-with-compaction"},
